@@ -114,7 +114,7 @@ def build(spec, hashes=None, chashes=None, fresh_strings=False, plain=False):
                 facility_skill_map=dict(ws.get("fac_skills", {})),
                 absence_time_list=list(ws.get("absence", [])),
                 main_workplace_id=(None if ws.get("main_wp") is None else S(ID("wp", ws["main_wp"]))),
-                quality_skill_mean_map={}, quality_skill_sd_map={},
+                quality_skill_mean_map=dict(ws.get("quality", {})), quality_skill_sd_map={},
             )
             team.add_worker(w)
             wid += 1
